@@ -483,3 +483,53 @@ Definition contract (g : egraph) (i j : nat) : option egraph :=
 (* the input graphs of the correspondence runs *)
 Definition sparse_of_edges (n : nat) (es : list (nat * nat)) : option sparse :=
   foldM (fun g (e : nat * nat) => s_add_edge g (fst e) (snd e)) es (s_empty n).
+
+(* ------------------------------------------------------------------ the aliasing clause: slices live in a heap *)
+(* A heap is a list of buffers, addressed by position.  A DenseGraph value holds the address of
+   the buffer its Edges slice points into; NewDense reads the caller's buffer [src] and, as the
+   code is written now (copyOfEdges := make; copy), allocates a fresh buffer for the graph. *)
+Definition heap := list (list Z).
+
+Record hdense := mkH { hn : nat; hm : Z; hdeg : list Z; haddr : nat }.
+
+Definition h_new_dense (H : heap) (n src : nat) : option (heap * hdense) :=
+  do e <- nth_error H src;
+  if length e =? tri n then
+    do st <- nd_count n e;
+    let '(deg, m, _) := st in
+    Some (H ++ [e], mkH n m deg (length H))
+  else None.
+
+(* the DenseGraph as the observers see it in heap H *)
+Definition h_view (H : heap) (g : hdense) : option dense :=
+  do e <- nth_error H (haddr g); Some (mkDense (hn g) (hm g) (hdeg g) e (length e)).
+
+(* the caller executes buf[k] = v on the buffer at address a *)
+Definition h_write (H : heap) (a k : nat) (v : Z) : heap :=
+  match nth_error H a with
+  | Some e => upd H a (upd e k v)
+  | None => H
+  end.
+
+(* NewSparse: the caller passes the addresses of its inner slices (as nat lists in a second
+   heap); sortints.NewSortedInts copies each of them into a fresh buffer *)
+Definition nheap := list (list nat).
+
+Record hsparse := mkHS { hsn : nat; hsm : Z; hsaddr : list nat; hsdeg : list Z }.
+
+Definition h_new_sparse (H : nheap) (n : nat) (srcs : list nat) : option (nheap * hsparse) :=
+  if length srcs =? n then
+    do ls <- mapM (nth_error H) srcs;
+    let tmp := map new_sorted_ints ls in
+    let deg := map (fun l => Z.of_nat (length l)) tmp in
+    Some (H ++ tmp, mkHS n (zlist_sum deg / 2) (seq (length H) n) deg)
+  else None.
+
+Definition hs_view (H : nheap) (g : hsparse) : option sparse :=
+  do nb <- mapM (nth_error H) (hsaddr g); Some (mkSparse (hsn g) (hsm g) nb (hsdeg g)).
+
+Definition hn_write (H : nheap) (a k v : nat) : nheap :=
+  match nth_error H a with
+  | Some e => upd H a (upd e k v)
+  | None => H
+  end.
